@@ -145,6 +145,18 @@ reg('C01', True,
     'general, "no stretch longer than twice the resolution", BIT*/AIT*/EIT* edge bookkeeping beyond what is listed.',
     'clang 14 AST/CFG of 115 units; the validity checker and goal are opaque',
     'guard dominance and path-sensitive typestate over clang CFG with verdict-relevance slicing + call-site agreement')
-for _p in ['C02', 'C06', 'C07', 'C14', 'C15', 'C16',
+reg('C02', True,
+    'Decides structural necessary conditions over the control planners and control::SpaceInformation: the step count '
+    'stored in a tree node or returned by a directed control sampler is, on every path, the count that '
+    'propagateWhileValid/sampleTo returned (value-flow over the CFG); every 3-argument PathControl::append takes '
+    'state, control and steps*stepSize from one node; in propagateWhileValid every propagated state is validated '
+    'before the function returns and the returned count is the number of validated steps; controls are drawn with '
+    'uniformReal(low[i], high[i]) for all i; the node whose state satisfied the goal is recorded before the test is '
+    're-evaluated or the function returns; parallel solution arrays are cleared together; status and registration '
+    'agree in 6 control solve() functions. Not decided: that replay reproduces the states (depends on the user '
+    'propagator being deterministic), goal-region geometry, PDST/LTL path assembly (listed).',
+    'clang 14 AST/CFG of 20 units; the state propagator and validity checker are opaque',
+    'value-flow (taint) and typestate over clang CFG + call-site argument agreement')
+for _p in ['C06', 'C07', 'C14', 'C15', 'C16',
            'C17', 'C20']:
     reg(_p, False, '', '', '', PENDING)
